@@ -1,0 +1,5 @@
+//go:build !verif
+
+package websocket
+
+func verifGate(c *Conn, point string) {}
